@@ -414,3 +414,106 @@ def mask_eval(e: ast.AST, atom_value) -> bool:
         if d in ("logical_not", "invert") and len(e.args) == 1:
             return not mask_eval(e.args[0], atom_value)
     return atom_value(unparse(e))
+
+
+def late_binding_closures(fn: ast.AST):
+    """Closures created inside a loop that read a variable the loop re-binds, and that outlive the iteration (appended to /
+    stored in a container or attribute, returned, yielded): when they run, the variable holds the value of the LAST iteration for
+    all of them.  Returns [(closure node, variable name, escaping statement)].  A closure that binds the variable as a default
+    argument (`lambda z, j=j: ..`) or is only called inside the iteration is fine."""
+    out = []
+
+    def loop_bound(lp):
+        names = set()
+        if isinstance(lp, (ast.For, ast.AsyncFor)):
+            names |= {x.id for x in ast.walk(lp.target) if isinstance(x, ast.Name)}
+
+        def walk(n):
+            for c in ast.iter_child_nodes(n):
+                if isinstance(c, (ast.FunctionDef, ast.AsyncFunctionDef, ast.Lambda, ast.ClassDef)):
+                    continue
+                if isinstance(c, ast.Name) and isinstance(c.ctx, ast.Store):
+                    names.add(c.id)
+                walk(c)
+        for b in lp.body:
+            if isinstance(b, ast.Name) and isinstance(b.ctx, ast.Store):
+                names.add(b.id)
+            walk(b)
+        return names
+
+    def free_reads(cl):
+        a = cl.args
+        params = {x.arg for x in a.posonlyargs + a.args + a.kwonlyargs} | ({a.vararg.arg} if a.vararg else set()) | ({a.kwarg.arg} if a.kwarg else set())
+        body = cl.body if isinstance(cl.body, list) else [cl.body]
+        local = {x.id for b in body for x in ast.walk(b) if isinstance(x, ast.Name) and isinstance(x.ctx, ast.Store)}
+        return {x.id for b in body for x in ast.walk(b) if isinstance(x, ast.Name) and isinstance(x.ctx, ast.Load)} - params - local
+
+    def closures_in(stmts):
+        found = []
+
+        def walk(n):
+            for c in ast.iter_child_nodes(n):
+                if isinstance(c, (ast.FunctionDef, ast.AsyncFunctionDef, ast.Lambda)):
+                    found.append(c)
+                    continue
+                if isinstance(c, ast.ClassDef):
+                    continue
+                walk(c)
+        for s in stmts:
+            if isinstance(s, (ast.FunctionDef, ast.AsyncFunctionDef)):
+                found.append(s)
+            else:
+                walk(s)
+        return found
+
+    for lp in ast.walk(fn):
+        if not isinstance(lp, (ast.For, ast.AsyncFor, ast.While)):
+            continue
+        bound = loop_bound(lp)
+        parents = {}
+        for n in ast.walk(lp):
+            for c in ast.iter_child_nodes(n):
+                parents[id(c)] = n
+        for cl in closures_in(lp.body):
+            captured = free_reads(cl) & bound
+            if isinstance(cl, (ast.FunctionDef, ast.AsyncFunctionDef)):
+                captured.discard(cl.name)
+            if not captured:
+                continue
+            esc = None
+            if isinstance(cl, ast.Lambda):
+                p = parents.get(id(cl))
+                # stored: `xs.append(lambda ..)`, `d[k] = lambda ..`, `obj.attr = lambda ..`, returned / yielded
+                if isinstance(p, ast.Call) and isinstance(p.func, ast.Attribute) and p.func.attr in ("append", "insert", "add", "setdefault", "extend") and cl in p.args:
+                    esc = p
+                elif isinstance(p, ast.Assign) and p.value is cl and any(isinstance(t, (ast.Subscript, ast.Attribute)) for t in p.targets):
+                    esc = p
+                elif isinstance(p, (ast.Return, ast.Yield)):
+                    esc = p
+            else:
+                for n in ast.walk(lp):
+                    if isinstance(n, ast.Name) and n.id == cl.name and isinstance(n.ctx, ast.Load):
+                        p = parents.get(id(n))
+                        if isinstance(p, ast.Call) and p.func is n:
+                            continue            # called
+                        if isinstance(p, ast.Attribute):
+                            continue            # `f.attr = ..` decorations of the function object
+                        if isinstance(p, ast.Call) and isinstance(p.func, ast.Attribute) and p.func.attr in ("append", "insert", "add", "extend") and n in p.args:
+                            esc = p
+                        elif isinstance(p, ast.Assign) and p.value is n and any(isinstance(t, (ast.Subscript, ast.Attribute)) for t in p.targets):
+                            esc = p
+                        elif isinstance(p, (ast.Return, ast.Yield)):
+                            esc = p
+            if esc is not None:
+                # a container that is itself created afresh in every iteration does not carry the closure out of the iteration
+                base = None
+                if isinstance(esc, ast.Call):
+                    base = esc.func.value
+                elif isinstance(esc, ast.Assign):
+                    base = next((t.value for t in esc.targets if isinstance(t, (ast.Subscript, ast.Attribute))), None)
+                while isinstance(base, (ast.Attribute, ast.Subscript)):
+                    base = base.value
+                if isinstance(base, ast.Name) and base.id in bound:
+                    continue
+                out.append((cl, sorted(captured)[0], esc))
+    return out
